@@ -75,6 +75,43 @@ def sites(body, include_casts=True):
     return out
 
 
+# A relational guard `a >= b` discharges `a - b` only if both mention the SAME values. Two calls of a function that reads the clock, an atomic,
+# a lock, a channel or an iterator are different values even when they render alike: such calls are keyed by their call site.
+IMPURE_LAST = ("now", "elapsed", "load", "swap", "compare_exchange", "compare_exchange_weak", "fetch_add", "fetch_sub", "fetch_update", "fetch_max", "fetch_min",
+               "next", "recv", "try_recv", "poll", "lock", "read", "write", "try_lock", "borrow", "borrow_mut", "get_mut", "pop", "pop_front", "pop_back", "take", "replace",
+               "duration_since_epoch", "current_timestamp", "random", "gen", "new_v4", "now_v7")
+_IMPURE = {}
+
+
+def impure(prog, path, depth=0):
+    if path in _IMPURE:
+        return _IMPURE[path]
+    last = path.rsplit("::", 1)[-1]
+    if last in IMPURE_LAST and not path.startswith(("core::num::", "core::slice::")):
+        _IMPURE[path] = True
+        return True
+    _IMPURE[path] = False          # recursion guard
+    r = False
+    if path in prog.bodies and depth < 4:
+        for b in prog.family(path):
+            for _, t in b.calls():
+                c = b.callee(t) or b.callee_decl(t) or ""
+                if c and c != path and impure(prog, c, depth + 1):
+                    r = True
+                    break
+            if r:
+                break
+    _IMPURE[path] = r
+    return r
+
+
+def rkey(prog, t):
+    """rendering of a term for relational facts: equal keys mean equal values"""
+    s_ = show(t)
+    ids = [(x[1].rsplit("::", 1)[-1], x[3]) for x in walk(t) if isinstance(x, tuple) and x and x[0] == "call" and len(x) >= 5 and impure(prog, x[1])]
+    return s_ + ("#" + repr(ids) if ids else "")
+
+
 class Intervals:
     """interval of a term, using constant, cast and modulo knowledge plus refinements that hold at a block"""
 
@@ -110,7 +147,7 @@ class Intervals:
                 elif ca is not None and cb is None:
                     self._refine(num, b, SWAP[op], ca)
                 else:
-                    sa, sb_ = show(a), show(b)
+                    sa, sb_ = rkey(self.prog, a), rkey(self.prog, b)
                     if op in ("Ge", "Gt"):
                         rel.add((sa, sb_, op))
                     elif op in ("Le", "Lt"):
@@ -122,7 +159,7 @@ class Intervals:
         for sb, place, targets, otherwise in discr_switches(self.body):
             term = strip(self.ev.place(place, (sb, "T")))
             if term[0] == "call" and term[1].endswith("::cmp") and len(term[2]) == 2:
-                a, b = show(strip(term[2][0])), show(strip(term[2][1]))
+                a, b = rkey(self.prog, strip(term[2][0])), rkey(self.prog, strip(term[2][1]))
                 # Ordering: Less = -1 (255), Equal = 0, Greater = 1
                 for v, tgt in list(targets.items()) + [("otherwise", otherwise)]:
                     if not edge_dominates(self.body, sb, tgt, block):
@@ -292,7 +329,7 @@ def audit(prog, body, allow=None, include_casts=True, skip_macros=("debug_assert
                 if r[0] is not None and r[0] >= full[0] and r[1] <= full[1] and r != full:
                     reason = "interval %s in %s" % (r, ty)
                 elif op == "Sub":
-                    sa, sb_ = show(strip(a)), show(strip(b))
+                    sa, sb_ = rkey(prog, strip(a)), rkey(prog, strip(b))
                     if (sa, sb_, "Ge") in rel or (sa, sb_, "Gt") in rel:
                         reason = "relational guard %s >= %s" % (sa[:30], sb_[:30])
                     else:
@@ -330,8 +367,8 @@ def audit(prog, body, allow=None, include_casts=True, skip_macros=("debug_assert
                 reason = "value in %s fits %s" % (r, s.ty)
             s.detail = "%s = %s" % (s.what, show(v)[:70])
         elif s.kind == "op" and "Duration as std::ops::Sub" in s.what or (s.kind == "op" and s.what.endswith("::sub")):
-            a = show(strip(resolve_upvars(prog, ev.operand(s.ops[0], (s.block, "T")), body)))
-            b = show(strip(resolve_upvars(prog, ev.operand(s.ops[1], (s.block, "T")), body)))
+            a = rkey(prog, strip(resolve_upvars(prog, ev.operand(s.ops[0], (s.block, "T")), body)))
+            b = rkey(prog, strip(resolve_upvars(prog, ev.operand(s.ops[1], (s.block, "T")), body)))
             if (a, b, "Ge") in rel or (a, b, "Gt") in rel:
                 reason = "relational guard %s >= %s" % (a[:30], b[:30])
             s.detail = "%s - %s" % (a[:50], b[:50])
